@@ -459,6 +459,7 @@ def run(ctx):
         'two interfaces may choose either (adopted from the object)',
         'GetAll on an unknown interface may fail or return nothing']
     d = 2 if ctx.quick else 3
+    ctx.map(_task_early, [0])
     explore.explore(ctx, PropScenario, {'init_order': ['b', 'd']},
                     max_depth=d, label='base first, depth %d' % d,
                     max_states=60000)
@@ -468,5 +469,71 @@ def run(ctx):
     ctx.bounds = {'declarations': len(DECL), 'values_per_property': 2}
 
 
+def run_early(which):
+    """properties assigned in a subclass constructor BEFORE the base class
+    constructor runs (the descriptor creates its store on demand, so this is
+    an order the library supports): the values are what Get / GetAll return"""
+    viol = []
+    cw = fakes.ClientWorld()
+    try:
+        Base, Derived = make_family()
+        klass = Base if which == 'base' else Derived
+        keys = BASE_KEYS if which == 'base' else DERIVED_KEYS
+
+        class Early(klass):
+            def __init__(self, path):
+                for k in keys:
+                    setattr(self, ATTR[k], to_local(DECL[k][0],
+                                                    VALUES[DECL[k][0]][1]))
+                klass.__init__(self, path)
+        o = Early('/early')
+        cw.conn.exportObject(o)
+        cw.sent()
+        serial = 300
+        for k in keys:
+            sig, access, emits = DECL[k]
+            serial += 1
+            cw.conn.dataReceived(R.encode_message(
+                R.METHOD_CALL, serial,
+                {'path': '/early', 'member': 'Get', 'sender': CALLER,
+                 'interface': 'org.freedesktop.DBus.Properties',
+                 'destination': ':1.7'}, 'ss', [k[0], k[1]]))
+            mine = [m for m in cw.sent()
+                    if m['fields'].get('reply_serial') == serial]
+            want = VALUES[sig][1]
+            if access == 'write':
+                ok = len(mine) == 1 and mine[0]['type'] == 3
+            else:
+                ok = len(mine) == 1 and mine[0]['type'] == 2 and \
+                    mine[0]['body_plain'][0] == want
+            if not ok:
+                viol.append(('early/%s/%s.%s' % (which, k[0][-2:], k[1]),
+                             '%s.%s was assigned %r in the constructor of a '
+                             'subclass before the base constructor ran; Get '
+                             'answers %r' % (k[0], k[1], want,
+                                             [_b(m) for m in mine])))
+    except Exception as e:
+        viol.append(('early/%s/raises-%s' % (which, type(e).__name__),
+                     'assigning before the base constructor: %r' % (e,)))
+    finally:
+        cw.close()
+    return viol
+
+
+def _task_early(_):
+    res = core.Result()
+    for which in ('base', 'derived'):
+        res.count('states')
+        res.count('transitions', 12)
+        res.count('evaluations')
+        res.count('nontrivial')
+        for t, w in run_early(which):
+            res.violation('%s/%s' % (PROP, t), w,
+                          {'part': 'early', 'which': which}, size=1)
+    return res
+
+
 def replay(data):
+    if data.get('part') == 'early':
+        return [('%s/%s' % (PROP, t), w) for t, w in run_early(data['which'])]
     return explore.replay_violation(data)
